@@ -353,7 +353,9 @@ def same_name_kinds(ctx):
                             tag = "configured:" if configured else ""
                             ctx.violation(f"kinds-string-capacity:{tag}{'/'.join(order)}:{'dim-' + dimmed if dimmed else 'implicit'}", f"{src!r} {({k: (v if k != 'compiler_configs' else v.string_configs.strname_to_size) for k, v in kw.items()})}: declared capacity {sorted(set(short))}", {"source": src})
                             continue
-                    if uninit:
+                    if problems and not (dimmed in ("both", "both2") and False):
+                        ctx.violation(f"kinds-declared-twice:{'/'.join(order)}:{'dim-' + dimmed if dimmed else 'implicit'}", f"{src!r} {({k: v for k, v in kw.items() if k != 'compiler_configs'})}: declared twice: {sorted(set(p_[1] for p_ in problems))}", {"source": src})
+                    elif uninit:
                         ctx.violation(f"kinds-scalar-not-initialised:{'/'.join(order)}:{'dim-' + dimmed if dimmed else 'implicit'}", f"{src!r} {kw}: scalar {uninit} is not pre-initialised although only the array of that name is declared", {"source": src})
                     elif len(idents) < want:
                         ctx.violation(f"kinds-alias:{'/'.join(order)}", f"{src!r} {kw}: {want} different variables but identifiers {sorted(idents)}", {"template": None, "source": src})
